@@ -4,7 +4,7 @@
    assumptions that decryption inverts encryption under the same key and that a blob is a byte string.  "Deterministic"
    is functionality of derive / hkdf / hmac.  Byte strings are lists of N; base64url is Base64.v. *)
 From Coq Require Import List Bool NArith.
-From Verif Require Import Base64 Crypto CryptoProofs.
+From Verif Require Import Base64 Crypto CryptoProofs Run_Crypto RunCryptoSound.
 Import ListNotations.
 Open Scope nat_scope.
 
@@ -149,3 +149,25 @@ Proof. exact hist_outcomes. Qed.
 Theorem C16_nonvacuous_roundtrip :
   decrypt_value tK t_dec 1%N (frame_enc (t_enc 1 [9; 9] [0; 255; 128])%N) = Some [0; 255; 128]%N.
 Proof. exact roundtrip_instance. Qed.
+
+(* the tie: what the correspondence check's verdict means.  Run_Crypto.mismatches evaluates to [] exactly when every case is
+   accepted: its observed history is an execution of the model from the case's initial filter state (Rotate returns nothing, a
+   rotation payload is consumed, an event fails exactly when there is no key in force, and otherwise every value it produced is
+   attributed to exactly key_in_force at that point, decrypts to the original and is framed as Base64.v says), equal data under
+   equal triples gave equal digests, the values produced under concurrent rotation each come from one rotation, and the
+   caller's salt / info slices kept their bytes.  (Identities are interned by the harness, which folds what the cryptography
+   cannot tell apart: nil = empty salt / info, trailing NUL bytes of an HKDF salt and of an event id.) *)
+Theorem C16_verdict_is_model_execution : forall cs, Run_Crypto.mismatches cs = [] <-> Forall RunCryptoSound.case_accepted cs.
+Proof. exact RunCryptoSound.mismatches_nil_iff. Qed.
+Print Assumptions C16_verdict_is_model_execution.
+
+(* every value of every accepted event is under key_in_force of the state reached by the steps before it *)
+Theorem C16_accepted_event_under_key_in_force : forall st seen pre ewi vals ob rest,
+  RunCryptoSound.accepted st seen (pre ++ (OEvent N ewi vals, ob) :: rest) ->
+  let st' := fold_left (fun s x => fst (step N d_enc m_derive d_hkdf d_hmac s (fst x))) pre st in
+  match key_in_force N m_derive st' ewi with
+  | None => ob = CoErr
+  | Some t => exists os, ob = CoValues os /\ Forall2 (fun v o => value_ok t (fst v) o) vals os
+  end.
+Proof. exact accepted_event_under_key_in_force. Qed.
+Print Assumptions C16_accepted_event_under_key_in_force.
